@@ -339,6 +339,16 @@ def continuation(run, fem, rep, field, bounds, items, tol, res, shadow, judge):
         run.units["success:continuation"] += 1
         judge(r2, target, "continuation", dict(dof0=dof0, dof1=dof1))
         run.units["requested:continuation"] += 1
+        # a very fine ramp: the next prescribed value differs from the converged one in the seventh digit only (round 11: an early exit that
+        # compares start and prescribed values with numpy's default tolerances reported success without moving); the returned field must
+        # carry the new value exactly
+        target = target * (1 + 3e-7)
+        b.update(target)
+        dof0, dof1 = fem.dof.partition(field, bounds)
+        ext0 = fem.dof.apply(field, bounds, dof0)
+        r2b = fem.newtonrhapson(items=items, dof0=dof0, dof1=dof1, ext0=ext0, tol=tol, verbose=False)
+        judge(r2b, target, "tiny-increment", dict(dof0=dof0, dof1=dof1))
+        run.units["requested:tiny-increment"] += 1
         # back to exactly zero prescribed values from a state with non-zero values on the prescribed unknowns; whether all requested
         # values are zero is decided from the check's own map (not from the ext0 vector the library built)
         b.update(0.0)
@@ -693,7 +703,7 @@ SPEC = {
                        "solve:reduced-system", "solve:prescribed-increment", "linear:one-iteration", "linear:one-solve-counted", "linear:overlapping-boundaries", "solve:direct:without-r", "solve:direct:with-r", "solve:tools.solve", "success:reported-norm", "success:continuation:items-only", "success:continuation:x0=result", "success:continuation:x0=own-container", "failure:maxiter",
                        "failure:no-commit", "failure:raises:ValueError", "failure:items=2:SolidBodyForce", "failure:items=2:SolidBody", "failure:items=1:SolidBody",
                        # fourth audit (references of the check itself): requested prescribed unknowns / values, own hex8 residual, own history
-                       "requested:sets", "requested:values", "requested:continuation", "requested:unload-to-zero", "requested:linear-unload",
+                       "requested:sets", "requested:values", "requested:continuation", "requested:tiny-increment", "requested:unload-to-zero", "requested:linear-unload",
                        "own-residual:criterion", "own-residual:fun", "own-residual:scaled-force", "own-history:after-success", "own-history:after-failure"],
     "rule": ("boundary value problems on seeded interior-distorted box meshes (9 element families; 3D, plane strain, axisymmetric, mixed "
              "u/p/J, nearly-incompressible body; body force, point load, follower pressure), random tolerance 1e-12..1e-4, continuation "
